@@ -23,10 +23,16 @@ Strings travel as arrays of Unicode code points, integers as decimal strings.
   carrier K :=  {"c":C} | {"ite":[K,K]}
   {"op":"carrier","k":K}                       -> {"paths":[[ty..]..],"accepted":b,"storable":[b..]}   (Carrier.columnPaths, constants in source order)
   {"op":"stored","c":C,"text":[..],"chain":[ty..]} -> {"holds":b,"why":s}      (StoredOk: literal of the constant, value kept through the types)
+  expression E :=  {"leaf":[var,meth]} | {"leafdot":[var,meth]} | {"c":C} | {"un":["neg"|"pos",E]} | {"bin":["+",E,E]} | {"pow":[E,E]} | {"cmp":["<",E,E]}
+  {"op":"expr","e":E}                          -> {"text":[..],"wf":b}         (renderE: the model's text of the expression)
+  {"op":"exprok","e":E,"text":[..]}            -> {"holds":b,"why":s,"tokens":[s..]|null}   (ExprOk: tokenize, parse, compare)
+  {"op":"ctxsafe","text":[..]}                 -> {"holds":b,"why":s}          (ContextSafe of an emitted constant text)
+  {"op":"tokens","text":[..]}                  -> {"tokens":[s..]|null}
+  {"op":"exprsame","a":[..],"b":[..]}          -> {"same":b}                   (both texts are expressions and parse to the same tree)
 Run: lake env lean --run FaxVerif/C18/Driver.lean
 -/
 import Lean.Data.Json
-import FaxVerif.C18.Spec
+import FaxVerif.C18.Expr
 open Lean FaxVerif.C18
 
 def cps (j : Json) : Except String Str := do
@@ -171,6 +177,73 @@ def whyStored (c : PyConst) (text : Str) (chain : List CTy) : String :=
             else go (pre ++ [t]) w ts
       go [] v chain
 
+partial def parseExpr (j : Json) : Except String OExpr := do
+  let two (a : Json) : Except String (Json × Json) := do
+    match (← a.getArr?).toList with
+    | [x, y] => pure (x, y)
+    | _ => throw "two elements expected"
+  let three (a : Json) : Except String (String × Json × Json) := do
+    match (← a.getArr?).toList with
+    | [o, x, y] => pure ((← o.getStr?), x, y)
+    | _ => throw "three elements expected"
+  match j.getObjVal? "leaf", j.getObjVal? "leafdot", j.getObjVal? "c", j.getObjVal? "un" with
+  | .ok a, _, _, _ => let (v, m) ← two a; return .leaf (← cps v) true (← cps m)
+  | _, .ok a, _, _ => let (v, m) ← two a; return .leaf (← cps v) false (← cps m)
+  | _, _, .ok c, _ => return .const (← parseConst c)
+  | _, _, _, .ok a =>
+    let (o, e) ← two a
+    let o ← o.getStr?
+    if o == "neg" then return .un .neg (← parseExpr e)
+    else if o == "pos" then return .un .pos (← parseExpr e)
+    else throw s!"unknown unary operator {o}"
+  | _, _, _, _ =>
+    match j.getObjVal? "bin", j.getObjVal? "pow", j.getObjVal? "cmp" with
+    | .ok a, _, _ =>
+      let (o, x, y) ← three a
+      match [("+", BOp.add), ("-", .sub), ("*", .mul), ("/", .div), ("%", .mod)].lookup o with
+      | some op => return .bin op (← parseExpr x) (← parseExpr y)
+      | none => throw s!"unknown binary operator {o}"
+    | _, .ok a, _ => let (x, y) ← two a; return .pow (← parseExpr x) (← parseExpr y)
+    | _, _, .ok a =>
+      let (o, x, y) ← three a
+      match [("<", COp.lt), ("<=", .le), (">", .gt), (">=", .ge), ("==", .eq), ("!=", .ne)].lookup o with
+      | some op => return .cmp op (← parseExpr x) (← parseExpr y)
+      | none => throw s!"unknown comparison {o}"
+    | _, _, _ => throw "not an expression"
+
+def showTok : Tok → String
+  | .num t => String.ofList t
+  | .id t => String.ofList t
+  | .str v => "\"" ++ String.ofList v ++ "\""
+  | .punct t => String.ofList t
+
+def jtoks (o : Option (List Tok)) : Json :=
+  match o with
+  | some ts => Json.arr (ts.map fun t => Json.str (showTok t)).toArray
+  | none => Json.null
+
+def wfE : OExpr → Bool
+  | .leaf v _ m => decide (IsIdent v) && decide (IsIdent m)
+  | .const c => decide (ConstWF c)
+  | .un _ e => wfE e
+  | .bin _ a b => wfE a && wfE b
+  | .pow a b => wfE a && wfE b
+  | .cmp _ a b => wfE a && wfE b
+
+/-- explanation of a failed `ExprOk` (the verdict itself is `decide (ExprOk ..)`) -/
+def whyExpr (text : Str) : String :=
+  match tokenize text with
+  | none => "the emitted text is not a sequence of C++ tokens of the emitted subset"
+  | some ts =>
+    let glue := ts.filterMap fun t => match t with
+      | .punct p => if p = ['-', '-'] ∨ p = ['+', '+'] ∨ p = ['-', '='] ∨ p = ['+', '='] ∨ p = ['-', '>', '*'] then some (String.ofList p) else none
+      | _ => none
+    match parseE ts with
+    | none =>
+      if glue ≠ [] then s!"maximal munch: the C++ lexer reads the token(s) {glue} in it (a sign written directly after an operator fuses with it) — token sequence {ts.map showTok}; this is not an expression of the query's shape (g++: lvalue required / expected primary-expression)"
+      else s!"the token sequence {ts.map showTok} does not parse as one C++ expression of the emitted subset"
+    | some _ => s!"the token sequence {ts.map showTok} parses as a C++ expression that is not the query's expression (a different operator, operand or constant value, or an integer division)"
+
 def jopt (o : Option Str) : Json := match o with | some v => jcps v | none => Json.null
 
 def handle (line : String) : String :=
@@ -265,6 +338,28 @@ def handle (line : String) : String :=
         | some chain =>
           if decide (StoredOk c text chain) then pure (holds true "")
           else pure (holds false (whyStored c text chain))
+      else if op == "expr" then
+        let e ← parseExpr (← j.getObjVal? "e")
+        pure (Json.mkObj [("text", jcps (renderE e)), ("wf", Json.bool (wfE e))])
+      else if op == "exprok" then
+        let e ← parseExpr (← j.getObjVal? "e")
+        let text ← cps (← j.getObjVal? "text")
+        if decide (ExprOk e text) then pure (Json.mkObj [("holds", true), ("why", ""), ("tokens", jtoks (tokenize text))])
+        else pure (Json.mkObj [("holds", false), ("why", whyExpr text), ("tokens", jtoks (tokenize text))])
+      else if op == "ctxsafe" then
+        let text ← cps (← j.getObjVal? "text")
+        if decide (ContextSafe text) then pure (holds true "")
+        else
+          let bad := emittedOps.filter fun o => tokenize (o ++ text ++ [')']) != (tokenize text).map fun ts => .punct o :: ts ++ [tRP]
+          pure (holds false (match tokenize text with
+            | none => s!"the text {String.ofList text} is not a sequence of C++ tokens"
+            | some _ => s!"directly after the operator(s) {bad.map String.ofList} the text {String.ofList text} is lexed differently: e.g. {(bad.head?.map fun o => ((tokenize (o ++ text ++ [')'])).getD []).map showTok)}"))
+      else if op == "exprsame" then
+        let a ← cps (← j.getObjVal? "a")
+        let b ← cps (← j.getObjVal? "b")
+        pure (Json.mkObj [("same", Json.bool ((exprTree a).isSome && decide (exprTree a = exprTree b)))])
+      else if op == "tokens" then
+        pure (Json.mkObj [("tokens", jtoks (tokenize (← cps (← j.getObjVal? "text"))))])
       else if op == "bank" then
         pure (Json.mkObj [("line", jcps (bankLine pyTable (← cps (← j.getObjVal? "pre")) (← cps (← j.getObjVal? "suf")) (← cps (← j.getObjVal? "bank"))))])
       else throw s!"unknown op {op}"
